@@ -17,6 +17,13 @@ R6 emit/call: each attempt is preceded by the connected-event wait and the
    `connected` test; not connected => DisconnectedError; SocketIOError loops.
 R7 the event handlers are registered on the client's own namespace and the
    underlying connect() asks for that namespace only.
+R8 connected flag / connected event state machine: the `connect` handler
+   raises the flag and then sets the event; the `disconnect` handler
+   (transient loss, a reconnection may follow) clears the event and leaves
+   the flag alone; the `__disconnect_final` handler lowers the flag and then
+   sets the event; nobody else lowers the flag except the constructor and
+   disconnect().  (`connected` false is what emit/call/receive read as
+   "ended for good".)
 """
 import ast
 
@@ -320,6 +327,87 @@ def r7_registration(ctx, fam):
                   'connecting', key='reset', where=where(f))
 
 
+FLAG = 'self.connected'
+
+
+def r8_flag_machine(ctx, fam):
+    m = ctx.model
+    S = SIMPLE[fam]
+    conn = m.method(S, 'connect')
+    cls = m.cls(S)
+    want = {'connect': (True, 'set'), 'disconnect': (None, 'clear'),
+            '__disconnect_final': (False, 'set')}
+    seen = set()
+    for name, h in conn.nested.items():
+        if h.name not in want:
+            continue
+        seen.add(h.name)
+        flag, op = want[h.name]
+        construct = '%s.connect.%s' % (S, h.name)
+        run = run_function(h, m)
+        for p in run.paths:
+            if not p.normal:
+                continue
+            st = [e for e in p.events if e.kind == 'store' and
+                  U(e.expr) == FLAG]
+            ops = [e for e in p.events if e.kind == 'call' and
+                   e.recv() == CEV and e.callee() in ('set', 'clear')]
+            if flag is None:
+                ctx.check(not st, construct, 'a transient loss leaves the '
+                          '`connected` flag alone (false means ended for '
+                          'good)', key='transient-flag', reason='the handler '
+                          'of a transient loss assigns the `connected` flag: '
+                          'a caller that was waiting out the reconnection '
+                          'fails with DisconnectedError',
+                          where=where(h, st[0].node if st else None))
+            else:
+                good = len(st) == 1 and is_const(st[0].extra, flag)
+                ctx.check(good, construct, 'sets the flag to %s' % flag,
+                          key='flag-value', reason='the flag is assigned %s'
+                          % [txt(e.extra) for e in st], where=where(h))
+            good = len(ops) == 1 and ops[0].callee() == op
+            ctx.check(good, construct, 'connected event: %s()' % op,
+                      key='event-op', reason='the handler does %s on the '
+                      'connected event' % [e.callee() for e in ops],
+                      where=where(h))
+            if flag is not None and st and ops:
+                ctx.check(st[-1].idx < ops[0].idx, construct, 'flag is '
+                          'written before the waiters are woken',
+                          key='flag-then-wake', reason='the waiters are '
+                          'woken before the flag they test is written',
+                          where=where(h))
+    if seen != set(want):
+        raise AnalysisError('%s.connect: handlers %s not found' % (
+            S, sorted(set(want) - seen)))
+    # who lowers the flag
+    allowed = {'__init__', 'disconnect'}
+    n = 0
+    for f in m.funcs:
+        owner = f
+        while owner.cls is None and owner.parent is not None:
+            owner = owner.parent
+        if owner.cls is not cls:
+            continue
+        for node in walk_own(f.node):
+            if isinstance(node, ast.Assign) and any(
+                    U(t) == FLAG for t in node.targets) and \
+                    not is_const(node.value, True):
+                n += 1
+                nested_ok = f is not owner and owner.name == 'connect' and \
+                    f.name == '__disconnect_final'
+                ctx.check((f is owner and owner.name in allowed) or
+                          nested_ok, '%s.%s' % (S, owner.name if f is owner
+                                                else owner.name + '.' +
+                                                f.name),
+                          'the flag is lowered only by the constructor, '
+                          'disconnect() and the final-disconnect handler',
+                          key='flag-lowered', reason='`connected` is lowered '
+                          'outside the end of the connection',
+                          where=where(f, node))
+    if n < 3:
+        raise AnalysisError('C19.R8 found only %d flag-lowering sites' % n)
+
+
 def run(ctx):
     ctx.rule('C19.R1', 'publish then signal', floor=2)
     ctx.rule('C19.R3', 'FIFO: append [event, *args] / pop(0)', floor=4)
@@ -342,6 +430,10 @@ def run(ctx):
              'namespace; state reset before connecting', floor=6)
     for fam in SA:
         r7_registration(ctx, fam)
+    ctx.rule('C19.R8', 'connected flag / event state machine of the three '
+             'connection handlers; who lowers the flag', floor=16)
+    for fam in SA:
+        r8_flag_machine(ctx, fam)
     ctx.assume('thread / task interleavings are NOT explored (model-checking '
                'territory); the decided part is the ordering discipline '
                'necessary for a correct hand-off')
